@@ -24,11 +24,11 @@ RULE = (
 ASSUMPTIONS = ["the template's hydrogen style decides the reactor mode (DESIGN.md §3)"]
 
 
-def _keys(substrate, tpl, invert, strategy, style, raw):
+def _keys(substrate, tpl, invert, strategy, style, raw, automorphism=False):
     if raw:
         r, _, _ = rx.raw_reactor(substrate, tpl, invert, strategy, style)
     else:
-        r = rx.make_reactor(substrate, tpl, invert, strategy, style)
+        r = rx.make_reactor(substrate, tpl, invert, strategy, style, automorphism=automorphism)
     return rx.key_set(r.smarts_list), r
 
 
@@ -63,7 +63,7 @@ def body(case, rec):
         first = None
         for name, sub, tpl in reps:
             for s in rx.STRATEGIES:
-                ks, reactor = _keys(sub, tpl, invert, s, style, raw)
+                ks, reactor = _keys(sub, tpl, invert, s, style, raw, bool(case.get("automorphism")))
                 table[(name, s)] = ks
                 if first is None:
                     first = reactor
@@ -99,6 +99,8 @@ def body(case, rec):
     rec.label("lattice:comp-empty-all-nonempty" if (lat[0] and not lat[1]) else ("lattice:comp-proper-subset" if lat[1] < lat[0] else "lattice:comp==all"))
     if case.get("spectator"):
         rec.label("spectator-fragment")
+    if case.get("automorphism"):
+        rec.label("automorphism=True")
     rec.label(f"style={style}", f"kind={kind}", "own" if ti == si else "foreign", "results=0" if nres == 0 else ("results=1" if nres == 1 else "results>=2"))
     rec.show(dict(template=t0[:140], substrate=sub0[:100], rewritten=sub1[:100], kind=kind, invert=invert, results=nres))
     bad = compare(table)
@@ -193,6 +195,7 @@ def strat(tier):
                 kind=st.sampled_from(["rc", "rc", "rc", "its"]),
                 invert=st.booleans(),
                 spectator=st.sampled_from([None, None, "O", "CO", "[Na+]", "C1CCOC1"]),
+                automorphism=st.sampled_from([False, False, True]),  # documented constructor option
                 tmaps=keys,
                 offset=st.sampled_from([0, 0, 100]),
                 satoms=st.one_of(st.none(), keys, keys),
@@ -202,7 +205,20 @@ def strat(tier):
     )
 
 
+def enum_option_sweep(tier):
+    """Exhaustive over the corpus: own substrate, centre template, both directions, with the documented
+    `automorphism=True` option on and off, against a fixed renumbering and a fixed substrate rewriting (atom order
+    reversed, fragments rotated)."""
+    down = list(range(24, 0, -1))
+    for i in eligible():
+        for invert in (False, True):
+            for auto in ((True,) if tier == "quick" else (True, False)):
+                yield dict(tpl=i, sub=i, kind="rc", invert=invert, spectator=None, automorphism=auto, tmaps=down, offset=0, satoms=down, sfrags=[1, 2, 0, 3])
+
+
 SUBS = [
-    Sub("metamorphic", body, strategy=strat, examples={"quick": 1000, "thorough": 20000}, shards={"quick": 16, "thorough": 16}),
+    Sub("option_sweep", body, enum=enum_option_sweep, exhaustive=True, shards={"quick": 16, "thorough": 16},
+        doc="every eligible corpus reaction on its own substrate (centre template, both directions) with automorphism=True: base vs renumbered template vs rewritten substrate vs repeated call, three strategies"),
+    Sub("metamorphic", body, strategy=strat, examples={"quick": 800, "thorough": 20000}, shards={"quick": 16, "thorough": 16}),
     Sub("identity_independence", body_identity, strategy=strat_identity, examples={"quick": 400, "thorough": 8000}, shards={"quick": 16, "thorough": 16}, shrink=False),
 ]
